@@ -48,6 +48,8 @@ def structures(tier):
     add([d0, ('devmajor', 3), d1], [('plain', 0, False)])
     add([d0, ('devmajor', 3), d1], [('plain', None, False)])
     add([d0, ('hotfix', 4), d1], [('plain', 4, False), ('plain', 4, True)])
+    # several hotfix releases of one line, discovered in any order (`git tag` lists x.y.z.10 before x.y.z.2)
+    add([d0, ('hotfix', 4)], [('plain', 4, True), ('plain', 4, True), ('plain', 4, False)])
     add([('stab', 5), d0], [])
     add([d0, s0, ('stab2', 0)], [])
     add([d0, ('dev', 0)], [])
@@ -318,6 +320,13 @@ def make_harness(cfg, twin=False):
                         conds.append(('fix version shape', z3.BoolVal(False)))
                     else:
                         conds.append(('fix version', z3.And(*[a == b for a, b in zip(wv, gv)])))
+            if dst['kind'] == 'hotfix' and versions:
+                # the version string of the hotfix destination (from which the q/, q/w/ and w/ names
+                # are derived) is the target version
+                nv = tint.decode(str(dst['obj'].version))
+                conds.append(('hotfix: the version used for robot branch names is not the target version',
+                              z3.And(*[a == b for a, b in zip(nv, versions[0])]) if len(nv) == len(versions[0])
+                              else z3.BoolVal(False)))
         if twin:
             conds.append(('twin', z3.BoolVal(out != 'ok')))
         ctx.stats.obligations += len(conds)
@@ -391,8 +400,11 @@ def concrete_run(struct, order, dst_i, vals):
     except (ex.UnsupportedMultipleStabBranches, ex.DeprecatedStabilizationBranch,
             ex.DevBranchDoesNotExist, ex.NotASingleDevBranch) as e:
         return ('raise', type(e).__name__)
-    return ('ok', [b.name for b in c.dst_branches], list(c.target_versions),
-            sorted(c.ignored_branches))
+    res = ('ok', [b.name for b in c.dst_branches], list(c.target_versions),
+           sorted(c.ignored_branches))
+    if type(dst).__name__ == 'HotfixBranch':
+        res += (str(dst.version),)
+    return res
 
 
 def concrete_oracle(struct, dst_i, vals):
@@ -460,7 +472,10 @@ def concrete_oracle(struct, dst_i, vals):
             continue
         versions.append(ver(b))
     ignored = sorted(b['name'] for b in devs + stabs if b not in tl)
-    return ('ok', [b['name'] for b in tl], versions, ignored)
+    res = ('ok', [b['name'] for b in tl], versions, ignored)
+    if dst['kind'] == 'hotfix':
+        res += (versions[0],)
+    return res
 
 
 def replay(data):
